@@ -26,7 +26,7 @@ META = dict(
     level_text="Random histories (<=8 tasks, <=45 operations, nested operations inside next() and inside whenDone callbacks) and all histories up to a small depth over a 2-task scope are executed on the real Cooperator with a harness-owned scheduler; every next() call, every exception of a task operation and every whenDone/coiterate result is compared with a model of the documented task states; fairness is a bounded-wait check N*(R+2).",
     level_note="Trusted: the state model in this file (written from the docstrings of task.py); Deferred itself. resume() without a matching pause() while the task waits on a Deferred is treated as API misuse and not generated. Paused/waiting tasks are not touched by Cooperator.stop() until they are re-added (mirrors the code; the docstring is silent).",
     design_ref="§5 C11",
-    rule="case = (started, u, task scripts, op list); script steps yield plain values or Deferreds of six shapes (unfired; already succeeded; already failed; fired but chained on an inner unfired Deferred; pause()d then fired with success / with failure), raise, or end. non-trivial = the executed history contains a pause, resume or stop of a task while it waits on a Deferred it yielded; distinct by the canonical JSON of the case.",
+    rule="case = (started, u, task scripts, op list); script steps yield plain values or Deferreds (plain, or instances of application-defined Deferred subclasses) of six shapes (unfired; already succeeded; already failed; fired but chained on an inner unfired Deferred; pause()d then fired with success / with failure), raise, or end. non-trivial = the executed history contains a pause, resume or stop of a task while it waits on a Deferred it yielded; distinct by the canonical JSON of the case.",
 )
 
 # --------------------------------------------------------------------------
@@ -86,6 +86,27 @@ class _M:
 
 
 _KIND_EXC = None
+_SUBCLASSES = []
+
+
+def _deferred_class(c):
+    """0: Deferred; 1: an application subclass; 2: a subclass of that one.  The
+    subclasses are created on first use, i.e. after twisted.internet.task has
+    been imported, as an application's own classes are."""
+    from twisted.internet.defer import Deferred
+    if not c:
+        return Deferred
+    if not _SUBCLASSES:
+        import twisted.internet.task  # noqa: F401  (make the order explicit)
+
+        class AppDeferred(Deferred):
+            pass
+
+        class AppDeferredChild(AppDeferred):
+            pass
+        _SUBCLASSES.extend([AppDeferred, AppDeferredChild])
+    return _SUBCLASSES[(c - 1) % 2]
+
 
 
 def _exc_types():
@@ -117,6 +138,7 @@ class H:
         self.prefired = []
         self.cur = None
         self.in_cstop = 0
+        self.cstop_victims = set()
         self.coop = task.Cooperator(terminationPredicateFactory=self._term_factory,
                                     scheduler=self._sched, started=self.started)
 
@@ -232,8 +254,11 @@ class H:
                     raise StopIteration
         m.advances += 1
         self._open_window(m)
+        dcls = 0
         if m.pc < len(m.script):
-            kind, nested = m.script[m.pc]
+            step = m.script[m.pc]
+            kind, nested = step[0], step[1]
+            dcls = step[2] if len(step) > 2 else 0
             m.pc += 1
         else:
             kind, nested = "end", []
@@ -258,7 +283,9 @@ class H:
             if kind in ("d", "ds", "df", "dc", "dp", "dq"):
                 from twisted.internet.defer import Deferred
                 from twisted.python.failure import Failure
-                d = Deferred()
+                d = _deferred_class(dcls)()
+                if dcls:
+                    self.cls.add("yield-instance-of-application-Deferred-subclass")
                 live = m.comp is None
                 if kind == "d":
                     if m.comp is None:
@@ -385,11 +412,18 @@ class H:
         if not nested:
             return self._do_op(op, False)
         if self.in_cstop:
-            # Callbacks fired by Cooperator.stop() itself run while some tasks
-            # are completed and others not yet; the docstring does not say
-            # whether stop() is atomic, so nothing is executed (or asserted) here.
-            self.cls.add("nested-op-skipped-inside-cooperator-stop")
-            return
+            # Callbacks fired by Cooperator.stop() itself run while some of the
+            # tasks being stopped are completed and others not yet; the
+            # docstring does not say whether stop() is atomic, so nothing is
+            # executed (or asserted) on THOSE tasks, nor a nested stop/start of
+            # the cooperator.  Work submitted or resumed from such a callback
+            # (a retry handler) is well defined: it meets a stopped cooperator;
+            # it is checked once stop() has returned.
+            t = op[1] if len(op) > 1 and isinstance(op[1], int) else None
+            if op[0] in ("cstop", "cstart") or (t is not None and t in self.cstop_victims):
+                self.cls.add("nested-op-skipped-inside-cooperator-stop")
+                return
+            self.cls.add("nested-op-inside-cooperator-stop:" + op[0])
         try:
             return self._do_op(op, True)
         except (PropertyViolation, KnownFindingSkip, HarnessError):
@@ -499,6 +533,9 @@ class H:
                 if m.upause == 0 and m.dfr is None and self.stopped:
                     m.comp = "cstopped"   # re-added to a stopped cooperator
                     self.cls.add("resumed-into-stopped-cooperator")
+                    if self.in_cstop:
+                        self.cstop_victims.add(m.tid)
+                        self.cls.add("task-resumed-from-a-callback-during-cooperator-stop")
                 self.cls.add("resume")
             else:
                 accept = (types[m.comp],)
@@ -521,12 +558,15 @@ class H:
         if self.stopped:
             m.comp = "cstopped"
             self.cls.add("added-to-stopped-cooperator")
+        if self.in_cstop:
+            self.cstop_victims.add(m.tid)
+            self.cls.add("task-added-from-a-callback-during-cooperator-stop")
         self._set_change(before)
         if m.via == "coiterate":
             d = self.coop.coiterate(m.it)
             w = self._watch(m, d, [], "coiterate")
             self.cls.add("coiterate")
-            if m.comp is not None and not w["fired"]:
+            if m.comp is not None and not w["fired"] and not self.in_cstop:
                 self.flag("coiterate-on-stopped-cooperator-did-not-fire", f"task {m.tid}")
         else:
             m.handle = self.coop.cooperate(m.it)
@@ -550,6 +590,9 @@ class H:
             if m.comp is None and m.upause == 0 and self.stopped:
                 m.comp = "cstopped"
                 self.cls.add("resumed-into-stopped-cooperator")
+                if self.in_cstop:
+                    self.cstop_victims.add(m.tid)
+                    self.cls.add("task-resumed-from-a-callback-during-cooperator-stop")
             self.cls.add("fire-ok-late" if late else "fire-ok")
         else:
             exc = exc0 if rkind == "dq" else ScriptError(f"awaited deferred of task {m.tid}")
@@ -591,10 +634,13 @@ class H:
         if len(victims) >= 2:
             self.cls.add("cooperator-stop-with->=2-tasks")
         self.in_cstop += 1
+        outer = set(self.cstop_victims)
+        self.cstop_victims |= {m.tid for m in victims}
         try:
             self.coop.stop()
         finally:
             self.in_cstop -= 1
+            self.cstop_victims = outer
         # every task that was in the cooperator must now be completed
         from twisted.python.failure import Failure
         for m in victims:
@@ -804,9 +850,10 @@ def histories(draw, max_tasks=8):
     vias = draw(st.integers(0, 5 ** n - 1))
     slo = draw(st.sampled_from([0, 2, 4]))
     for i in range(n):
-        steps = draw(st.lists(st.integers(0, len(_KINDS) * 12 - 1), min_size=slo, max_size=10))
+        steps = draw(st.lists(st.integers(0, len(_KINDS) * 12 * 4 - 1), min_size=slo, max_size=10))
         tasks.append(dict(via="coiterate" if (vias // 5 ** i) % 5 == 4 else "cooperate",
-                          script=[[_KINDS[x % len(_KINDS)], pool[(x // len(_KINDS)) % 3] if x // len(_KINDS) >= 9 else []]
+                          script=[[_KINDS[x % len(_KINDS)], pool[(x // len(_KINDS)) % 3] if (x // len(_KINDS)) % 12 >= 9 else [],
+                                   [0, 0, 1, 2][(x // (len(_KINDS) * 12)) % 4]]
                                   for x in steps]))
     misc = draw(st.integers(0, 6 * 5 * 4 * (n + 1) - 1))
     return dict(started=misc % 6 != 5,
@@ -820,12 +867,19 @@ def histories(draw, max_tasks=8):
 _SMALL_ALPHABET = [
     ["tick"], ["pause", 0], ["resume", 0], ["stop", 0], ["fire", 0, True], ["fire", 0, False],
     ["whendone", 0, []], ["pause", 1], ["resume", 1], ["stop", 1], ["cstop"], ["cstart"],
+    # a completion callback that submits new work and resumes a paused task (a retry handler)
+    ["whendone", 0, [["add"], ["resume", 1]]],
+    # a completion callback that stops the whole cooperator (the case the comment in _completeWith is about)
+    ["whendone", 0, [["cstop"]]],
 ]
+# two live tasks; a third definition is only created by an "add" operation
 _SMALL_TASKS = [
     [dict(via="cooperate", script=[["d", []], ["v", []]]),
-     dict(via="cooperate", script=[["v", []], ["v", []], ["v", []]])],
-    [dict(via="cooperate", script=[["v", []], ["dc", [["pause", 1]]], ["dq", []], ["raise", []]]),
-     dict(via="coiterate", script=[["v", []], ["ds", []], ["v", []]])],
+     dict(via="cooperate", script=[["v", []], ["v", []], ["v", []]]),
+     dict(via="coiterate", script=[["v", []]])],
+    [dict(via="cooperate", script=[["v", []], ["dc", [["pause", 1]], 2], ["dq", [], 1], ["raise", []]]),
+     dict(via="coiterate", script=[["v", []], ["ds", [], 1], ["v", []]]),
+     dict(via="cooperate", script=[["d", [], 1]])],
 ]
 
 
